@@ -583,6 +583,31 @@ func (ex *Exec) modelled(st *State, ref string, fn *types.Func, recv *Val, args 
 					return one(&Val{Sh: ex.eng.sh.shapeOf(r0()), T: r0(), S: t})
 				}
 			}
+			// a struct value rendered whole (%v / %+v): an uninterpreted function of every component of the value
+			if len(args) == 2 && (f == "%v" || f == "%+v") && args[1] != nil && args[1].Sh != nil && args[1].Sh.Kind == "struct" && args[1].T != nil {
+				var sorts, terms []string
+				var leaves func(v *Val)
+				leaves = func(v *Val) {
+					if v == nil || v.Sh == nil {
+						return
+					}
+					if v.Sh.IsLeaf() {
+						sorts = append(sorts, v.Sh.Leaf)
+						terms = append(terms, v.S)
+						return
+					}
+					for _, k := range v.Kids {
+						leaves(k)
+					}
+				}
+				leaves(args[1])
+				if len(terms) > 0 {
+					fname := fmt.Sprintf("uf_fmtstruct_%d_%d", typeID(args[1].T), len(f))
+					ex.eng.smt.declFun(fname, "(declare-fun "+fname+" ("+strings.Join(sorts, " ")+") String)")
+					ex.assumption("fmt: the rendering of a whole struct value is an uninterpreted function of all its components")
+					return one(&Val{Sh: ex.eng.sh.shapeOf(r0()), T: r0(), S: "(" + fname + " " + strings.Join(terms, " ") + ")"})
+				}
+			}
 		}
 		return one(ex.freshVal(r0(), "fmt"))
 	case "strconv.Itoa", "strconv.FormatInt", "strconv.FormatUint":
